@@ -12,7 +12,8 @@ list of spent values, produced values, fee and mint:
   transaction without certificates and withdrawals);
 * `preservation_sound_conway` — Conway; the spent and produced values and the mint must have unique keys, which
   every decoded `BTreeMap` has (`Norm`, `NodupMA`: decidable, examples below);
-* `byron_fees_sound` — Byron: inputs exceed outputs by at least `summand + multiplier * size`.
+* `byron_fees_sound` — Byron: outputs never exceed inputs, and (unless every input is a redeem address) inputs exceed
+  outputs by at least `summand + multiplier * size`.
 
 Each says: verdict `ok` ⇒ for ada and for every asset, spent + minted = produced + fee, in `Int`.
 The counter-examples the unchanged tree accepted (DESIGN §6 #21) are rejected by the model of the fixed code
@@ -163,23 +164,27 @@ theorem preservation_sound_conway (ins outs : List Value) (fee : Int) (mint : Op
           have := qa p n; have := ca p n; have := pa p n; have := oa p n; have := ia p n
           simp only [mintTot, assetTot_coin, sumAssets_cons] at *; omega
 
-/-- **Byron** (inputs that are not all redeem addresses): the difference covers the minimum fee. -/
-theorem byron_fees_sound (ins outs : List Int) (size summand multiplier : Int)
-    (h : byronCheckFees ins outs size summand multiplier false = .ok) :
-    ins.sum - outs.sum ≥ summand + multiplier * size := by
+/-- **Byron**: outputs never exceed inputs, and unless every input is a redeem address the difference covers the
+    minimum fee `summand + multiplier * size`. -/
+theorem byron_fees_sound (ins outs : List Int) (size summand multiplier : Int) (onlyRedeem : Bool)
+    (h : byronCheckFees ins outs size summand multiplier onlyRedeem = .ok) :
+    ins.sum - outs.sum ≥ 0 ∧ (onlyRedeem = false → ins.sum - outs.sum ≥ summand + multiplier * size) := by
   unfold byronCheckFees at h
   split at h
   · cases h
   · rename_i ib hib
     have e1 := sumU64_spec ins 0 ib hib
-    simp only [Bool.false_eq_true, if_false] at h
     split at h
     · cases h
     · rename_i ob hob
       have e2 := sumU64_spec outs 0 ob hob
       split at h
       · cases h
-      · split at h
+      · refine ⟨by omega, ?_⟩
+        intro hr
+        subst hr
+        simp only [Bool.false_eq_true, if_false] at h
+        split at h
         · cases h
         · split at h
           · cases h
@@ -206,7 +211,10 @@ example : checkPreservation [.multi 5000000 [("05", [("01", 12)])], .multi 50000
     [.multi 9999925 [("05", [("01", 6)])]] 75 none = .negativeValue := by decide
 example : byronCheckFees [100, 50] [120] 10 5 2 false = .ok := by decide
 example : byronCheckFees [100, 50] [126] 10 5 2 false = .feesBelowMin := by decide
-example : byronCheckFees [100] [126] 10 5 2 false = .panic := by decide
+example : byronCheckFees [100] [126] 10 5 2 false = .feesBelowMin := by decide
+/-- redeem-only inputs are exempt from the minimum fee but not from the balance -/
+example : byronCheckFees [100] [100] 10 5 2 true = .ok := by decide
+example : byronCheckFees [100] [126] 10 5 2 true = .feesBelowMin := by decide
 example : Norm (.multi 1 [("11", [("01", 3), ("02", 4)]), ("22", [("01", 1)])]) := by
   refine ⟨by decide, ?_⟩; intro e he; simp [maOf] at he; rcases he with rfl | rfl <;> decide
 end examples
